@@ -61,6 +61,14 @@ def resolve_scope(toks, scope, relpath):
     if scope in ('top', ''):
         return start, end, depth0
     for part in scope.split(' > '):
+        mfn = re.match(r'^fn\s+([A-Za-z_]\w*)$', part.strip())
+        if mfn:
+            # the body of a function (for items declared inside it)
+            hits = find_fn(toks, start, end, mfn.group(1), 0)
+            if len(hits) != 1 or hits[0][2] is None:
+                raise ExtractError(f"ANCHOR-LOST scope {part!r} in {relpath}: {len(hits)} matches")
+            start, end = hits[0][2] + 1, hits[0][3]
+            continue
         want = norm_hdr(part)
         blocks = [(h, a, b) for h, a, b in find_blocks(toks, start, end) if _hdr_match(h, want)]
         if len(blocks) != 1:
